@@ -33,6 +33,8 @@ func (f Fault) String() string {
 		return fmt.Sprintf("swap(%d,%d)", f.I, f.J)
 	case "reverse", "nopayloads":
 		return f.Kind
+	case "foreign":
+		return fmt.Sprintf("foreign(%s)", colarspb.ArrowPayloadType(f.Type))
 	}
 	return fmt.Sprintf("%s(%d)", f.Kind, f.I)
 }
@@ -107,6 +109,9 @@ func relabelTargets(sig string) []colarspb.ArrowPayloadType {
 func faultMenu(sig string, n int, thorough bool) []Fault {
 	var m []Fault
 	m = append(m, Fault{Kind: "nopayloads"}, Fault{Kind: "reverse"})
+	for _, t := range []colarspb.ArrowPayloadType{colarspb.ArrowPayloadType_SPANS, colarspb.ArrowPayloadType_LOGS, colarspb.ArrowPayloadType_UNIVARIATE_METRICS} {
+		m = append(m, Fault{Kind: "foreign", Type: int32(t)})
+	}
 	for i := 0; i < n; i++ {
 		for _, t := range relabelTargets(sig) {
 			m = append(m, Fault{Kind: "relabel", I: i, Type: int32(t)})
@@ -153,6 +158,16 @@ func applyFault(bar *colarspb.BatchArrowRecords, f Fault, stale map[colarspb.Arr
 		ps[f.I].Record = nil
 	case "emptyrec":
 		ps[f.I].Record = []byte{}
+	case "foreign":
+		// a main record of another signal (a copy of this batch's own main payload under a
+		// foreign label and a fresh schema id) appended behind everything else
+		c := proto.Clone(ps[0]).(*colarspb.ArrowPayload)
+		if c.Type == colarspb.ArrowPayloadType(f.Type) {
+			return false
+		}
+		c.Type = colarspb.ArrowPayloadType(f.Type)
+		c.SchemaId = "foreign-" + c.SchemaId
+		bar.ArrowPayloads = append(ps, c)
 	case "freshid":
 		ps[f.I].SchemaId = "never-seen-" + ps[f.I].SchemaId
 	case "staleid":
